@@ -241,7 +241,7 @@ def repo_fn_tokens(repo, reg, log):
         f = {"forcont": X.rw_for_continue, "narrow": X.rw_narrow_collect, "breakval": X.rw_break_value,
              "charsenum": X.rw_chars_enumerate, "revcollect": X.rw_rev_collect,
              "charrange": X.rw_range_contains, "strplumb": X.rw_str_plumbing, "io": X.rw_io, "fmt": X.rw_fmt,
-             "charsrev": X.rw_chars_rev}[rw]
+             "charsrev": X.rw_chars_rev, "optlib": X.rw_optlib}[rw]
         body, c = f(body)
         applied.append((rw, c))
     if "closure" in o:
